@@ -115,6 +115,12 @@ class Scanner:
                 return tr.conv(n["args"][0]) + sp.I * tr.conv(n["args"][1])
             except Unconvertible:
                 return None
+        if k == "InitListExpr" and len(n.get("inits", [])) == 1 and not any(t in (n.get("ctype") or "") for t in ("std::", "[", "struct ", "class ")):
+            # scalar brace initialisation: T v{e}
+            try:
+                return tr.conv(n["inits"][0])
+            except Unconvertible:
+                return None
         if k == "InitListExpr" and "std::complex<" in (n.get("ctype") or "") and len(n.get("inits", [])) == 2:
             try:
                 return tr.conv(n["inits"][0]) + sp.I * tr.conv(n["inits"][1])
